@@ -151,6 +151,7 @@ type vfScenario struct {
 	readErr   map[string]bool
 	yamlErr   map[string]bool
 	inputs    map[string]input.Input
+	empty     map[string]bool // files without any YAML document
 	formatErr bool
 	importErr bool
 	writeErr  bool
@@ -172,7 +173,7 @@ type vfRunResult struct {
 // vfRunBuild runs the real `build` command (RunE) in the virtual environment.
 func vfRunBuild(sc vfScenario, quiet, stub, ignoreParams, ignoreServices bool) vfRunResult {
 	runner.VfEnv = runner.VfEnvT{Patterns: sc.patterns, GlobErr: sc.globErr, GlobFiles: sc.globFiles,
-		ReadErr: sc.readErr, YamlErr: sc.yamlErr, Inputs: sc.inputs, WriteErr: sc.writeErr, Cwd: vfCwd}
+		ReadErr: sc.readErr, YamlErr: sc.yamlErr, Inputs: sc.inputs, WriteErr: sc.writeErr, Cwd: vfCwd, Empty: sc.empty}
 	template.VfFmtEnv = template.VfFmtEnvT{FormatErr: sc.formatErr, ImportsErr: sc.importErr}
 	out := &vfOut{}
 	cmd := NewBuildCmd("", "dev")
@@ -235,6 +236,11 @@ func vfScenarioChoice() vfScenario {
 		}
 		sc.readErr["b.yaml"] = vfBool("readErrB")
 		sc.yamlErr["b.yaml"] = vfBool("yamlErrB")
+		// and the second file may hold no YAML document at all: it is read, adds nothing, and is no failure
+		if vfBool("emptyB") {
+			sc.empty = map[string]bool{"b.yaml": true}
+			sc.inputs["b.yaml"] = input.Input{}
+		}
 	}
 	sc.formatErr = vfBool("formatErr")
 	sc.importErr = vfBool("importsErr")
